@@ -778,7 +778,7 @@ func TestVerifC06Service(t *testing.T) {
 	r.SetRule("Each case builds a fresh 3-node service cluster over memory stores (random leader, ISR of 2 or 3, MinISR 1..|ISR|, epochs >= 2), runs quorum/local appends from concurrent clients, pauses honest replication (sometimes mid-flight), lets the leader's log run ahead with local-mode appends, starts quorum appends that cannot complete, and meanwhile fires hostile HandlePull/HandleAck calls at the leader: ack offsets above LEO (LEO+1 when the log end is quiescent, huge, MaxUint64), stale and future fences, non-replica followers, stopped acks, and truthful acks on behalf of real replicas (never above what that replica's store holds). Every hostile event is bracketed by runtime probes; all nodes are probed after each phase. A case is non-trivial iff a quorum append succeeded and the hostile peer attacked while the leader's LEO was ahead of its HW; distinct = (leader, |ISR|, MinISR, feature set).")
 	r.Assume("a real ISR member that over-claims an offset <= LEO is outside the threat model (undetectable by any leader); accepted hostile acks are truthful w.r.t. the replica's memory store")
 	r.Assume("memory-store log ends only grow in this configuration (no retention, no quorum-log suffix replacement), so reading them after the probe gives a sound upper bound")
-	n := r.N(36, 420)
+	n := r.N(36, 900)
 	for i := 0; i < n; i++ {
 		if r.Skip(i) {
 			continue
